@@ -5,7 +5,8 @@
    proofs in proofs/TimersP.v.  All theorems quantify over ALL op sequences that begin with
    connect() on a client or with a first receive_datagram() on a server. *)
 From AQ Require Import lib.Base model.Timers model.TimersSpec proofs.TimersP model.TimersFull model.TimersFullSpec proofs.TimersFullP.
-From AQ Require model.RecBase model.Recovery proofs.TimersFullLink.
+From AQ Require model.RecBase model.Recovery proofs.TimersFullLink model.AckQueue proofs.TimersFullAck.
+From AQ Require Import gen.C12Consts model.RangeSet.
 
 (* Until termination _close_at is set: get_timer() does not raise (the comparison with None is
    unreachable) and returns a finite time not later than _close_at, whatever the ack / loss /
@@ -143,20 +144,22 @@ Theorem timer_sources_sound : forall reset client o ops ptod, ffirst_op client o
 Proof. exact timer_sources_sound_lemma. Qed.
 Print Assumptions timer_sources_sound.
 
-(* timer_progress (partial: see progress_of).  Reachable live state, get_timer() = v from source s; the adapter fires
+(* timer_progress (see progress_of).  Reachable live state, get_timer() = v from source s; the adapter fires
    handle_timer(v) and transmits datagrams_to_send(v).  s = _close_at: TERMINATED.  s = loss_time of space i:
-   _detect_loss ran on exactly that space (its new loss_time is the value _detect_loss computed).  s = PTO: _pto_count
-   + 1 and a probe is scheduled.  s = _pacing_at: provided the pacer answers None or a time after now, and provided
-   (reset = true, i.e. the fix) or _write_application is reached and consults the pacer: afterwards the connection is
-   closing or _pacing_at is None or later than v.  NOT covered (hence _partial): s = ack_at -- the ACK leaves only if the
-   packet can be built (observation O1) -- and that the recomputed loss_time is later than v (exact arithmetic: yes;
-   floats: C19's O3(a)). *)
-Theorem timer_progress_partial : forall reset client o ops ptod pto3 te w d v s, ffirst_op client o ->
+   _detect_loss ran on exactly that space, which is not discarded (its new loss_time is the value _detect_loss computed;
+   later than v in exact arithmetic: loss_time_advances_exact; floats: C19's O3(a)).  s = PTO: _pto_count + 1 and a probe
+   is scheduled.  s = ack_at of space i: provided the ordinary branch is taken and the packet of that space can be started
+   and has room for the frame (ack_can_send: keys, no QuicPacketBuilderStop before it, for the application space
+   _handshake_complete) the ACK is written and ack_at = None afterwards -- without that premise it can stay (observation
+   O1, and a server holding 0-RTT data before the handshake completes).  s = _pacing_at: provided the pacer answers None
+   or a time after now, and provided (reset = true, i.e. the fix) or _write_application is reached and consults the
+   pacer: afterwards the connection is closing or _pacing_at is None or later than v. *)
+Theorem timer_progress : forall reset client o ops ptod pto3 te w d v s, ffirst_op client o ->
   let f := snd (frun reset (full_init client) (o :: ops)) in
   c_close_at (f_c f) = Some d -> is_end (c_state (f_c f)) = false -> timer_src ptod d f = (v, s) ->
   progress_of reset ptod pto3 te w f v s.
-Proof. exact timer_progress_partial_lemma. Qed.
-Print Assumptions timer_progress_partial.
+Proof. exact timer_progress_lemma. Qed.
+Print Assumptions timer_progress.
 
 (* timer_progress_pacing_refuted.  The code as it is (reset = false): there is a server history (stale_history) after
    which get_timer() = v = _pacing_at in a CONNECTED state, and firing handle_timer(v); datagrams_to_send(v) --
@@ -198,3 +201,38 @@ Theorem loss_timer_refines_recovery : forall (C : Type) (F : RecBase.fops Z),
   Recovery.loss_detection_time F st = loss_time_of (TimersFullLink.abs_rec c st) (TimersFullLink.pto_deadline F st).
 Proof. exact (fun C F => TimersFullLink.loss_time_link_lemma F). Qed.
 Print Assumptions loss_timer_refines_recovery.
+
+(* _detect_loss at now, exact arithmetic on the time grid (+, <=, < are those of Z): the loss_time it stores is None or
+   later than now -- firing the loss timer at loss_time advances it.  Not true of floats (C19's O3(a)). *)
+Theorem loss_time_advances_exact : forall (F : RecBase.fops Z), TimersFullLink.exact_arith F ->
+  forall la pth now delay l lt0 lost x, (forall y, lt0 = Some y -> now < y) ->
+  Recovery.detect_scan F la pth (now - delay) delay l lt0 = (lost, Some x) -> now < x.
+Proof. exact TimersFullLink.detect_scan_advances_lemma. Qed.
+Print Assumptions loss_time_advances_exact.
+
+(* Link to C12's model (model/AckQueue.v): under "record packet as received", _write_ack_frame and discard_space the
+   ack_at / discarded fields of a space of the composed model move exactly as AckQueue's; and the minimum C12's
+   get_timer_le is about is the fold of Timers.get_timer. *)
+Theorem ack_at_refines_ackqueue : forall s pn elic t d lt ae ow delay room r s',
+  (let capnow := CAP_ACK_NOW && (Zlen (add pn (pn + 1) (AckQueue.aq s)) >=? MAX_ACK_RANGES) in
+   ts_ack_at (ts_record (TimersFullAck.abs_ack s lt ae ow) elic t d capnow) = AckQueue.ack_at (AckQueue.record s pn elic t d) /\
+   ts_disc (ts_record (TimersFullAck.abs_ack s lt ae ow) elic t d capnow) = AckQueue.disc (AckQueue.record s pn elic t d)) /\
+  (AckQueue.write_ack s delay room = (r, s') ->
+   AckQueue.disc s' = AckQueue.disc s /\
+   match r with
+   | AckQueue.SFrame _ _ => AckQueue.ack_at s' = ts_ack_at (ts_ack_written (TimersFullAck.abs_ack s None 0 0))
+   | _ => AckQueue.ack_at s' = AckQueue.ack_at s
+   end) /\
+  (ts_ack_at (ts_discard (TimersFullAck.abs_ack s lt ae ow)) = AckQueue.ack_at (AckQueue.discard s) /\
+   ts_disc (ts_discard (TimersFullAck.abs_ack s lt ae ow)) = AckQueue.disc (AckQueue.discard s)).
+Proof.
+  exact (fun s pn elic t d lt ae ow delay room r s' =>
+    conj (TimersFullAck.record_link_lemma s pn elic t d lt ae ow)
+         (conj (TimersFullAck.write_ack_link_lemma s delay room r s') (TimersFullAck.discard_link_lemma s lt ae ow))).
+Qed.
+Print Assumptions ack_at_refines_ackqueue.
+
+Theorem get_timer_refines_ackqueue : forall srcs d,
+  fold_left (fun cur a => tmin a cur) srcs (Ok (Some d)) = Ok (Some (AckQueue.get_timer d srcs)).
+Proof. exact TimersFullAck.get_timer_link_lemma. Qed.
+Print Assumptions get_timer_refines_ackqueue.
